@@ -1238,8 +1238,13 @@ func craftDictStream(rng *rand.Rand, tid, wl int, dict []byte) []byte {
 	total := 0
 	for k := 0; k < 3; k++ {
 		idx := rng.Intn(1 << nb)
+		if ForceDictIdx >= 0 && ForceDictIdx < 1<<nb {
+			idx = ForceDictIdx
+		}
 		if k == 0 {
-			idx = []int{0, 1<<nb - 1, rng.Intn(1 << nb)}[rng.Intn(3)]
+			if ForceDictIdx < 0 {
+				idx = []int{0, 1<<nb - 1, rng.Intn(1 << nb)}[rng.Intn(3)]
+			}
 		}
 		word := dict[brotli.VerifDictOffsets()[wl]+idx*wl:][:wl]
 		tw := brotli.VerifTransformWord(word, tid)
@@ -1299,6 +1304,9 @@ func Stream(rng *rand.Rand, bad float64, dict []byte) []byte { return safeCraft(
 
 // DictStream returns a stream whose only command copies static-dictionary
 // word wl/idx through transform tid.
+// ForceDictIdx >= 0 makes DictStream reference that word of the chosen length class.
+var ForceDictIdx = -1
+
 func DictStream(rng *rand.Rand, tid, wl int, dict []byte) []byte {
 	defer func() { recover() }()
 	return craftDictStream(rng, tid, wl, dict)
